@@ -675,6 +675,23 @@ public final class Driver {
                 out.append("ENC ").append(id).append(' ');
                 written(out, buf);
                 out.append('\n');
+            } else if (cmd.equals("DECX")) {
+                // the same object decodes two messages one after the other; the answer describes the second decode
+                if (toks.length < 5) {
+                    throw new Unsupported("syntax DECX <packet> <hex> <hex>");
+                }
+                Class<?> cls = resolve(toks[2], null);
+                Object obj = newInstance(cls);
+                try {
+                    call(obj, "decode", Unpooled.wrappedBuffer(unhex(toks[3])));
+                } catch (Observed e) {
+                    throw new Unsupported("first decode failed: " + describe(e.getCause()));
+                }
+                ByteBuf buf = Unpooled.wrappedBuffer(unhex(toks[4]));
+                call(obj, "decode", buf);
+                out.append("DEC ").append(id).append(' ').append(buf.readerIndex()).append(' ');
+                dump(out, obj, 0);
+                out.append('\n');
             } else if (cmd.equals("DEC")) {
                 if (toks.length < 3) {
                     throw new Unsupported("syntax DEC without packet");
